@@ -11,12 +11,14 @@ import (
 // FCFG is the control flow graph of one function body (declaration or
 // literal; nested literals are separate graphs) with dominator information.
 type FCFG struct {
+	tagCond  map[ast.Expr]ast.Expr // synthesized comparisons for the case expressions of tag switches
 	G        *cfg.CFG
 	Fn       ast.Node
 	where    map[ast.Node]nodePos // every sub node of a block node -> position
 	idom     []int                // immediate dominator by block index, -1 = none/unreachable
 	info     *types.Info
 	switchOf map[*ast.CaseClause]*ast.SwitchStmt
+	caseTag  map[ast.Expr]*ast.SwitchStmt // case expression -> its tag switch
 	preds    [][]int
 	live     []bool
 }
@@ -81,6 +83,14 @@ func (p *Program) CFG(fn ast.Node) *FCFG {
 			for _, cl := range sw.Body.List {
 				if cc, ok := cl.(*ast.CaseClause); ok {
 					f.switchOf[cc] = sw
+					if sw.Tag != nil {
+						if f.caseTag == nil {
+							f.caseTag = map[ast.Expr]*ast.SwitchStmt{}
+						}
+						for _, ce := range cc.List {
+							f.caseTag[ce] = sw
+						}
+					}
 				}
 			}
 		}
@@ -253,6 +263,22 @@ func (f *FCFG) condOf(b *cfg.Block) ast.Expr {
 	}
 	e, ok := b.Nodes[len(b.Nodes)-1].(ast.Expr)
 	if !ok {
+		return nil
+	}
+	// a case expression of a tag switch stands for the comparison tag == e
+	if sw, ok := f.caseTag[e]; ok {
+		switch ast.Unparen(sw.Tag).(type) {
+		case *ast.Ident, *ast.SelectorExpr:
+			if f.tagCond == nil {
+				f.tagCond = map[ast.Expr]ast.Expr{}
+			}
+			if c, ok := f.tagCond[e]; ok {
+				return c
+			}
+			c := &ast.BinaryExpr{X: sw.Tag, OpPos: e.Pos(), Op: token.EQL, Y: e}
+			f.tagCond[e] = c
+			return c
+		}
 		return nil
 	}
 	if f.info != nil {
